@@ -12,7 +12,8 @@ pub fn c17_tree() -> TreeProp {
   TreeProp {
     id: "C17",
     gen: Box::new(|rng, thorough| {
-      let cfg = GenCfg { map_w: (2, 6, 0), ..GenCfg::wild(if thorough { 4 } else { 3 }) };
+      // half of the trees with ASCII-only text: K4 (char vs byte columns) cannot occur there, so any trap is another defect
+      let cfg = GenCfg { map_w: (2, 6, 0), mb: rng.chance(2), ..GenCfg::wild(if thorough { 4 } else { 3 }) };
       let t = TreeGen::new().tree(rng, &cfg, cfg.depth, false);
       let mut ops = vec![Op::Src, Op::Buffer, Op::Size, Op::Rope, Op::Writer(3), Op::Stream(true, false), Op::Stream(false, false), Op::Map(true), Op::Map(false), Op::Stream(true, true), Op::Stream(false, true), Op::Hash, Op::Stream(true, false), Op::Map(true)];
       if rng.chance(2) { ops.reverse(); }
